@@ -341,6 +341,49 @@ func checkC16(r *Run) int {
 			r.Outcomes["negative-fails"]++
 		}
 	}
+	// 5. every option on the command line, the config file absent or holding no YAML document at all
+	{
+		f2 := c15File([]int{0, 1, 2, 3, 4}, [2]bool{}, []int{0, 1, 2, 3})
+		f2.Pkg, f2.Name = "perm", "perm.proto"
+		fd2 := f2.Descriptor()
+		c2 := &dsl.Config{Types: []string{"Perm", "Twin"}, Exclude: []string{"Perm.Hidden"}, Computed: []string{"Perm.Scal", "Leaf.I"}, Required: []string{"Twin.Who"}, Sensitive: []string{"Leaf.S"},
+			DefaultPkg: "example.com/acme/structs", TargetPkg: "tfschema", Sort: true, DurationCustomType: "Duration"}
+		var params []string
+		for i, o := range opts {
+			if _, ok := accepted[i]; ok {
+				params = append(params, spelling[i]+"="+o.value(c2))
+			}
+		}
+		param := strings.Join(params, ",")
+		ref2 := &gExec{Label: "dual-only all-YAML", FD: fd2, YAML: c2.YAML(nil, nil)}
+		variants := []*gExec{
+			{Label: "all-parameter, no config parameter", FD: fd2, NoCfg: true, Param: param},
+			{Label: "all-parameter, zero-byte config file", FD: fd2, YAML: "", Param: param},
+			{Label: "all-parameter, comment-only config file", FD: fd2, YAML: "# nothing configured here\n# (everything is on the command line)\n", Param: param},
+			{Label: "all-parameter, blank-lines-only config file", FD: fd2, YAML: "\n   \n\n", Param: param},
+			{Label: "all-parameter, config file with an empty document", FD: fd2, YAML: "---\n", Param: param},
+			{Label: "all-parameter, config file with an empty mapping", FD: fd2, YAML: "{}\n", Param: param},
+		}
+		if len(params) == len(opts) {
+			r.runAll(append([]*gExec{ref2}, variants...), bin)
+			if ref2.Res.ExitCode != 0 || ref2.Res.Content() == "" {
+				r.HarnessErrs = append(r.HarnessErrs, "dual-only reference execution failed: "+lastLines(ref2.Res.Stderr, 3))
+			} else {
+				for _, e := range variants {
+					if e.Res.ExitCode != 0 || !bytes.Equal(e.Res.Stdout, ref2.Res.Stdout) {
+						diff := fmt.Sprintf("exit status %d: %s", e.Res.ExitCode, lastLines(e.Res.Stderr, 2))
+						if e.Res.ExitCode == 0 {
+							diff = firstDiffLine(ref2.Res.Content(), e.Res.Content())
+						}
+						add("channels-not-equivalent", "all-parameter:"+strings.TrimPrefix(e.Label, "all-parameter, "), e.Label, "output differs from the all-YAML execution: "+diff, map[string]interface{}{"kind": "request", "yaml": e.YAML, "param": e.Param, "no_config": e.NoCfg})
+					} else {
+						r.Outcomes["all-parameter-equal"]++
+					}
+				}
+			}
+			execs = append(execs, variants...)
+		}
+	}
 	r.States = len(execs) + len(negs) + len(probes) + 1
 	r.Nontrivial = r.States
 	r.Bounds = append(r.Bounds, fmt.Sprintf("channel assignments within k=%d deviations of all-YAML and of all-parameter over %d options", k, len(usable)))
